@@ -11,5 +11,8 @@ def jobs(tier):
     J=[]
     for dimc,m in [(1,3),(2,4)]:
         J.append(Job('K-floor0-d%d-m%d'%(dimc,m),'C02/k_floor0.c',defs=['-DMMAX=%d'%m,'-DMFIX=%d'%m,'-DNBK=3','-DDIMC=%d'%dimc],unwind=18,unwindset=[('ov_ilog',None,34)],checks=['leak'],
-            witnesses=['coefficients decoded','unused / end of packet','three or more vectors','32-bit amplitude with the top bit set'],models=BS,functions=['floor0_inverse1','floor0_look','floor0_free_look'],bounds='',weight=3))
+            witnesses=['coefficients decoded','unused / end of packet','three or more vectors'],models=BS,functions=['floor0_inverse1','floor0_look','floor0_free_look'],bounds='',weight=3))
+    for ab in (16,31,32):
+        J.append(Job('K-floor0-amp%d'%ab,'C02/k_floor0.c',defs=['-DMMAX=1','-DMFIX=1','-DNBK=1','-DDIMC=1','-DAMPB=%d'%ab],unwind=18,unwindset=[('ov_ilog',None,34)],checks=['leak'],
+            witnesses=['coefficients decoded','unused / end of packet']+(['32-bit amplitude with the top bit set'] if ab==32 else []),models=BS,functions=['floor0_inverse1'],bounds='',weight=3))
     return J
